@@ -70,7 +70,7 @@ fn report_json(sc: &Scenario, seed: u64, rep: &Report, wall_ms: u128) -> Value {
         "decisions": rep.decisions, "interval_decided": rep.interval_decided, "search_hits": rep.search_hits, "search_evals": rep.search_evals,
         "queries": rep.queries, "solver_ms": rep.solver_ms as u64, "wall_ms": wall_ms as u64,
         "unknown_feasibility": rep.unknown_feasibility, "path_cap_hit": rep.path_cap_hit, "time_cap_hit": rep.time_cap_hit,
-        "solver_errors": rep.solver_errors,
+        "solver_errors": rep.solver_errors, "restarts_skipped": rep.restarts_skipped,
         "obligations": rep.obligations.len(), "proved": n("proved"), "concrete_true": n("concrete_true"),
         "refuted_n": n("refuted") + n("concrete_false"), "unknown_n": n("unknown"),
         "by_label": by_label, "refuted": refuted, "unknown": unknown,
